@@ -22,9 +22,14 @@ mcvars == <<cfg, now, entries, log, last, steps, ticked>>
 
 ---------------------------------------------------------------------------
 (* configuration corners (seconds) *)
-CfgDefault == [maxValidity |-> 604800, transportFailure |-> 30, miscError |-> 30,
-               maxNxdomain |-> 3600, maxNodata |-> 3600, maxDelegation |-> 1000000,
-               cacheTruncated |-> FALSE]
+(* the documented defaults; the harness obtains this one from Config::new() *)
+(* without calling any validity setter                                     *)
+CfgDefault == [maxValidity |-> DocDefaults.maxValidity,
+               transportFailure |-> DocDefaults.transportFailure,
+               miscError |-> DocDefaults.miscError,
+               maxNxdomain |-> DocDefaults.maxNxdomain, maxNodata |-> DocDefaults.maxNodata,
+               maxDelegation |-> DocDefaults.maxDelegation,
+               cacheTruncated |-> DocDefaults.cacheTruncated]
 CfgMin     == [maxValidity |-> 60, transportFailure |-> 1, miscError |-> 1,
                maxNxdomain |-> 60, maxNodata |-> 60, maxDelegation |-> 60,
                cacheTruncated |-> FALSE]
@@ -68,6 +73,8 @@ TK_Quick == {500, 1000, 4000, 5500, 3601000}
 TK_Bounds == {500, 1000, 4000, 30000, 60000, 120000, 240000}
 (* just below / above max_validity of CfgTight (100 s) and CfgDefault (7 d) *)
 TK_MaxVal == {100000, 101000, 604800000, 604801000}
+(* just below / above the documented default bounds: 30 s, 1 h *)
+TK_Default == {30000, 31000, 3600000, 3601000}
 TK_Flags == {500, 4000, 5500}
 TK_Sim == TK_Quick \cup TK_Bounds \cup {0, 1, 999, 1001, 5000, 5001, 61000}
 
